@@ -104,6 +104,9 @@ pub const MENU: &[(&str, &str, &str)] = &[
     ("hi_s_args", "(arg int) (arg str) args", "(arg 2)"),
     ("hi_this_i", "(arg int) (this int)", "(arg 1)"),
     ("hv_v_this", "(arg value) (arg value) (this value)", "(arg 2)"),
+    // two receiver extractors in one signature: each takes the receiver, or its own argument
+    ("hthis_this", "(this value) (this value)", "sum"),
+    ("hthis_i_v_this", "(this int) (arg value) (this value)", "(arg 2)"),
 ];
 
 pub fn menu_entry(kind: &str) -> (&'static str, &'static str, &'static str) {
@@ -360,6 +363,15 @@ pub fn register(ctx: &mut Context, f: &HostFn) {
         "hv_v_this" => ctx.add_function(name, move |a: Value, b: Value, This(t): This<Value>| -> R {
             logcall(&n, &[a, b, t.clone()]);
             Ok(t)
+        }),
+        "hthis_this" => ctx.add_function(name, move |This(a): This<Value>, This(b): This<Value>| -> R {
+            let v = vec![a, b];
+            logcall(&n, &v);
+            sum(&v)
+        }),
+        "hthis_i_v_this" => ctx.add_function(name, move |This(a): This<i64>, b: Value, This(c): This<Value>| -> R {
+            logcall(&n, &[Value::Int(a), b, c.clone()]);
+            Ok(c)
         }),
         "hv_args" => ctx.add_function(name, move |a: Value, Arguments(all): Arguments| -> R {
             logcall(&n, &[a, Value::List(all.clone())]);
